@@ -37,6 +37,15 @@ theorem run_eq_spec (P : Params) (hc : CodecOk P.codec) (hB0 : 0 < P.B) (hB : P.
     run (serial P) mb files = runEager (serial P) files :=
   run_eq_packRef (P := serial P) rfl hc hB0 hB mb files
 
+/-- **`run_sync_eq_spec`.**  The same when the caller drains the processor (`sqfs_block_processor_sync`) while every
+file is still open, before `end_file` — the packers never do, a library user may; this is where the third early exit
+of `dequeue_block` (`backlog == 2`, open fragment block and open data block) is reached.  With `max_backlog` 3 and a
+`sync` after every `append` each item is worked, taken back and written at once: the serial pool with an immediate
+drain, run on the implementation model itself. -/
+theorem run_sync_eq_spec (P : Params) (hc : CodecOk P.codec) (hB0 : 0 < P.B) (hB : P.B < 2 ^ 24) (mb : Nat) (files : List InFile) :
+    run (serial P) mb files (sy := true) = runEager (serial P) files :=
+  run_eq_packRef (P := serial P) rfl hc hB0 hB mb files true
+
 /-- **`backlog_independent`.**  Two values of `max_backlog` (`-Q`) give the same result … -/
 theorem backlog_independent (P : Params) (hc : CodecOk P.codec) (hB0 : 0 < P.B) (hB : P.B < 2 ^ 24) (mb₁ mb₂ : Nat)
     (files : List InFile) : run (serial P) mb₁ files = run (serial P) mb₂ files := by
@@ -220,6 +229,10 @@ example :
 /-- `backlog_independent` / `run_eq_spec` on the instance, evaluated: backlog 3 vs 40 vs the reference -/
 example : (run (serial exP) 3 exFiles).toOption = (run (serial exP) 40 exFiles).toOption ∧
     (run (serial exP) 3 exFiles).toOption = (runEager (serial exP) exFiles).toOption := by
+  decide +kernel
+
+/-- `run_sync_eq_spec` on the instance -/
+example : (run (serial exP) 3 exFiles (sy := true)).toOption = (runEager (serial exP) exFiles).toOption := by
   decide +kernel
 
 /-- the hypothesis of `finish_writes_everything` is satisfiable, and so is the error case of
